@@ -646,7 +646,9 @@ class HostInterp:
             raise AnalysisError("interpretation: unsupported arithmetic")
         if isinstance(e, ast.BinOp) and isinstance(e.op, (ast.BitXor, ast.BitOr, ast.BitAnd)):
             a, b = self.ev(e.left, env), self.ev(e.right, env)
-            if (isinstance(a, int) and isinstance(b, int)) or (isinstance(a, (set, frozenset)) and isinstance(b, (set, frozenset))):
+            import collections.abc as _cabc
+
+            if (isinstance(a, int) and isinstance(b, int)) or (isinstance(a, _cabc.Set) and isinstance(b, _cabc.Set)):
                 return {ast.BitXor: lambda: a ^ b, ast.BitOr: lambda: a | b, ast.BitAnd: lambda: a & b}[type(e.op)]()
             raise AnalysisError("interpretation: unsupported bit operation")
         if isinstance(e, ast.BinOp) and isinstance(e.op, ast.Mod):
